@@ -12,7 +12,7 @@ BASE = {"type": "opm", "kind": "orbit", "scale": "UTC", "frame": "EME2000", "cov
         "manframe": "none", "comment": False, "nud": 0, "npoints": 1, "ncov": "all", "nephem": 1, "interp": "lagrange8",
         "tdmpath": "one-way", "tdmdoppler": False, "manpos": "start", "form": "cartesian", "grown": "no"}
 DIMS = {"type": ["opm", "oem", "omm", "tdm"], "kind": ["orbit", "statevector"], "scale": ["UTC", "TAI", "TT", "GPS", "UT1", "TDB"],
-        "frame": ["EME2000", "ITRF", "TOD", "GCRF", "MOD", "TEME", "CIRF", "PEF", "TIRF", "G50"],
+        "frame": ["EME2000", "ITRF", "TOD", "GCRF", "MOD", "TEME", "CIRF", "PEF", "TIRF", "G50", "Mars", "SolarSystemBarycenter", "Moon"],
         "cov": ["none", "same", "QSW", "TNW", "other", "mixed"], "nman": [0, 1, 2, 3], "mankind": ["impulsive", "continuous", "mixed"],
         "manframe": ["none", "QSW", "TNW"], "comment": [False, True], "nud": [0, 1, 2], "npoints": [1, 2, 3, 9],
         "ncov": ["all", "one"], "nephem": [1, 2], "interp": ["linear", "lagrange2", "lagrange5", "lagrange8"],
